@@ -371,6 +371,23 @@ Section Client.
         end
     end.
 
+  (* the cookies handed to Fetcher.StoreCookie while one datagram is handled:
+     ProcessResponse stores pkt.Cookies (the cleartext cookie fields before the
+     authenticator and the ones in the decrypted plaintext) as soon as the
+     datagram has authenticated, before the origin / metadata checks; ntsresp
+     is a fresh Packet for every datagram *)
+  Definition dgram_cookies (q : request) (ev : event) : list bytes :=
+    match ev with
+    | EvErr _ => []
+    | EvDgram g =>
+        if q_nts q && flags_ok q g then
+          match front_check q g, ntp_decode (g_payload g) with
+          | None, Some _ => match nts_check q (g_payload g) with Ok cs => cs | _ => [] end
+          | _, _ => []
+          end
+        else []
+    end.
+
   Inductive loop_result :=
   | LAccept (i : nat) (r : result)   (* the i-th event was accepted *)
   | LFail (i : nat) (e : eclass)     (* the i-th event ended the call with this error *)
@@ -391,6 +408,26 @@ Section Client.
         | SFuel => LFuel idx
         end
     end.
+
+  (* all cookies stored during the loop, in order *)
+  Fixpoint loop_cookies (q : request) (nr : nat) (evs : list event) : list bytes :=
+    match evs with
+    | [] => []
+    | ev :: rest =>
+        dgram_cookies q ev ++
+        match handle q nr ev with
+        | SSkip _ => loop_cookies q (S nr) rest
+        | _ => []
+        end
+    end.
+
+  (* Fetcher.FetchData: a key exchange (ke = the cookies it delivers) when the
+     pool is empty, then the first cookie leaves the pool *)
+  Definition fetch_pool (pool ke : list bytes) : list bytes :=
+    match pool with [] => tl ke | _ :: r => r end.
+  (* Fetcher.StoreCookie, for every cookie: longer ones are ignored *)
+  Definition store_cookies (pool cs : list bytes) : list bytes :=
+    pool ++ filter (fun c => (length c <=? 896)%nat) cs.
 
   (* ---------------------------------------------------------------- *)
   (* request construction, state, the three exchanges of one call      *)
@@ -576,6 +613,12 @@ Definition o_clauses (q : oreq) (d : oview) (t1 t2 : Z) : bool :=
    (inter && (t1 =? time_of_time64 (oq_org q) (oq_ref q)))) &&
   (* transmit time not before the receive time it is combined with *)
   (t1 <=? t2).
+
+(* the pool clause: every cookie in the pool after a call was in the pool
+   before it, was delivered by a key exchange during it, or was carried by a
+   delivered datagram that is authentic for its request *)
+Definition C05_pool_ok (before ke authentic after : list bytes) : bool :=
+  forallb (fun c => existsb (bytes_eqb c) (before ++ ke ++ authentic)) after.
 
 Inductive oobs :=
 | ObsError                         (* an error was returned *)
